@@ -359,23 +359,27 @@ JudgeQuery(e, L, indexed) ==
   \* every variant is judged against the reference evaluation, which implies knob independence
   IN per \cup cntBad
 
+\* one random-access call: by = "offset" | "rowid" | "addr"
+JudgeOneTake(L, by, keys, res, ids) ==
+  LET scan == PScanCells(L) IN
+  IF by = "offset"
+  THEN (IF \A i \in 1..Len(keys) : keys[i] < Len(scan)
+        THEN (IF res = "ok" /\ ids = [i \in 1..Len(keys) |-> scan[keys[i] + 1].id] THEN {} ELSE {<<"TakeEqualsScan", "offsets">>})
+        ELSE (IF res = "ok" THEN {<<"TakeEqualsScan", "out-of-range-accepted">>} ELSE {}))
+  ELSE LET rows == PRows(L)
+           \* by = "rowid": stable row ids; by = "addr": <<fragment, offset>> pairs (the driver composes
+           \* the 64-bit address, which does not fit TLC's integers)
+           ridOf(r) == IF by = "rowid" THEN r.rid ELSE <<r.fid, r.off>>
+           known == {ridOf(r) : r \in rows}
+       IN IF \A i \in 1..Len(keys) : keys[i] \in known
+          THEN (IF res = "ok" /\ ids = [i \in 1..Len(keys) |-> (CHOOSE r \in rows : ridOf(r) = keys[i]).id]
+                THEN {} ELSE {<<"TakeRowsEqualsScan", by>>})
+          ELSE {}    \* keys that name no live row: not specified by the property
 JudgeTake(e, L) ==
-  LET st == e.step
-      scan == PScanCells(L)
-      keys == st.keys
-  IN IF st.by = "offset"
-     THEN (IF \A i \in 1..Len(keys) : keys[i] < Len(scan)
-           THEN (IF e.res = "ok" /\ e.extra.ids = [i \in 1..Len(keys) |-> scan[keys[i] + 1].id] THEN {} ELSE {<<"TakeEqualsScan", "offsets">>})
-           ELSE (IF e.res = "ok" THEN {<<"TakeEqualsScan", "out-of-range-accepted">>} ELSE {}))
-     ELSE LET rows == PRows(L)
-              \* by = "rowid": stable row ids; by = "addr": <<fragment, offset>> pairs (the driver composes
-              \* the 64-bit address, which does not fit TLC's integers)
-              ridOf(r) == IF st.by = "rowid" THEN r.rid ELSE <<r.fid, r.off>>
-              known == {ridOf(r) : r \in rows}
-          IN IF \A i \in 1..Len(keys) : keys[i] \in known
-             THEN (IF e.res = "ok" /\ e.extra.ids = [i \in 1..Len(keys) |-> (CHOOSE r \in rows : ridOf(r) = keys[i]).id]
-                   THEN {} ELSE {<<"TakeRowsEqualsScan", st.by>>})
-             ELSE {}    \* keys that name no live row: not specified by the property
+  IF e.step.op = "take" THEN JudgeOneTake(L, e.step.by, e.step.keys, e.res, IF "ids" \in DOMAIN e.extra THEN e.extra.ids ELSE <<>>)
+  ELSE IF "takes" \notin DOMAIN e.extra THEN {<<"TakeEqualsScan", "probe-failed">>}
+  ELSE UNION {JudgeOneTake(L, e.extra.takes[i].by, e.extra.takes[i].keys, e.extra.takes[i].res, e.extra.takes[i].ids)
+              : i \in 1..Len(e.extra.takes)}
 
 \* C12: the rows a DML statement removed / (re)inserted are the ones the SQL reference semantics selects
 JudgeDml(e, L, R, indexed) ==
@@ -398,7 +402,7 @@ JudgeDml(e, L, R, indexed) ==
   ELSE {}
 
 Ops == {"create","append","overwrite","checkout","refresh","delete","update","merge_insert","compact","restore","reread","validate",
-        "query","take","create_index","optimize_indices"}
+        "query","take","take_probe","create_index","optimize_indices"}
 
 Init == /\ l = 1 /\ obs = <<>> /\ hvT = <<>> /\ issued = {} /\ truth = <<>> /\ truthAt = <<>>
         /\ serial = {} /\ touched = <<>> /\ stable = FALSE /\ scn = 0 /\ bad = <<>>
@@ -450,10 +454,10 @@ Step(e) ==
            usable == ~IsErr(P)
            indexed == L.indices # <<>>
            pairs == IF op = "query" THEN JudgeQuery(e, L, indexed)
-                    ELSE IF op = "take" THEN JudgeTake(e, L)
+                    ELSE IF op \in {"take", "take_probe"} THEN JudgeTake(e, L)
                     ELSE IF op \in {"delete", "update", "merge_insert"} /\ usable THEN JudgeDml(e, L, R, indexed)
                     ELSE {}
-           names1 == IF op \in {"query", "take"} THEN (IF e.latest # L THEN {"FailedHasNoEffect"} ELSE {})
+           names1 == IF op \in {"query", "take", "take_probe"} THEN (IF e.latest # L THEN {"FailedHasNoEffect"} ELSE {})
                      ELSE IF op = "reread"
                      THEN (IF e.res = "ok" /\ st.v \in DOMAIN obs /\ e.extra.proj # obs[st.v] THEN {"VersionsImmutable"} ELSE {})
                           \cup (IF e.res # "ok" /\ st.v \in DOMAIN obs THEN {"VersionsImmutable"} ELSE {})
